@@ -68,6 +68,7 @@ class GraphSpec:
 
 def finish(prop, tier, seed, t0, b, results, spec):
     from . import refmodel
+    judge = getattr(spec, 'judge', None) or refmodel.judge
     known, fixed = H.known_findings()
     known = [k for k in known if k['property'] == prop]
     inconclusive = [r for r in results if r['status'] == 'inconclusive']
@@ -81,12 +82,14 @@ def finish(prop, tier, seed, t0, b, results, spec):
             if prop not in v['props'] and not os.environ.get('SEIR_ALLPROPS'):
                 continue
             key = "%s:%s" % (v['call'].get('op', '?'), v['clauses'][0].split(':')[0])
+            if getattr(spec, 'key_by_clause', False):
+                key = "%s:%s" % (v['call'].get('op', '?'), v['clauses'][0])
             jid = json.dumps(v['job'], sort_keys=True)
             if jid in seen_jobs:
                 continue
             seen_jobs.add(jid)
             lines, crashed, stderr = H.native_replay(b['replay'], v['job'])
-            what, info = refmodel.judge(v['job'], lines, crashed, stderr)
+            what, info = judge(v['job'], lines, crashed, stderr)
             rec = dict(property=prop, task=r['name'], key=key, clauses=v['clauses'], kind=v['kind'], detail=v.get('detail'),
                        job=v['job'], native=what, info=info)
             if not what:
@@ -101,6 +104,7 @@ def finish(prop, tier, seed, t0, b, results, spec):
                 continue
             path = H.write_replay(prop, rec)
             confirmed.append((rec, what, path))
+    addr_dep = sorted({x for r in results for x in r.get('addr_dep', [])})
     covers = {}
     for r in results:
         for name, hit in r['covers'].items():
@@ -131,6 +135,7 @@ def finish(prop, tier, seed, t0, b, results, spec):
             'build_s': round(b['seconds'], 1),
             'profile': b['profile'],
             'known_findings_hit': sorted(known_hit),
+            'address_dependent_comparisons': addr_dep,
             'unreproduced_counterexamples': len(unreproduced),
             'inconclusive': [dict(name=r['name'], error=r.get('error')) for r in inconclusive],
         },
@@ -160,6 +165,10 @@ def finish(prop, tier, seed, t0, b, results, spec):
             for r in inconclusive[:5]:
                 print("INCONCLUSIVE: %s: %s" % (r['name'], (r.get('error') or '')[:400]))
             rc = 2
+        if addr_dep and prop == 'C19':
+            for a in addr_dep[:3]:
+                print("INCONCLUSIVE: a comparison depends on allocation addresses: %s" % a)
+            rc = 2
         if missed:
             for m in missed[:5]:
                 print("INCONCLUSIVE: cover witness not met (vacuity guard): %s" % m)
@@ -186,6 +195,79 @@ def slots_task(tier):
 
 from .kani import KaniSpec      # noqa: E402
 
+
+class TextSpec(GraphSpec):
+    """C17 on the build-std IR"""
+    key_by_clause = True
+    assumptions = ['characters range over all Unicode scalar values except U+0020, grouped by UTF-8 length (the shape of a text is fixed per run)',
+                   'decimal indices: texts with up to 4 (quick) / 5 (thorough) symbolic digits; Alpha(n) for all n < 2^16 and windows of 1024 values at every power of ten and below 2^64',
+                   'built with the nightly toolchain and -Zbuild-std (core/alloc/std IR), not the repository\'s stable toolchain',
+                   'getenv returns NULL (no RUST_BACKTRACE): anyhow captures no backtrace on error paths']
+    bounds = 'name texts: every shape up to 3 (quick) / 5 (thorough) characters and edge shapes up to 10 characters; see assumptions for indices'
+
+    def __init__(s):
+        GraphSpec.__init__(s, [], "Label::from_str and Display executed on the IR (with core::str / core::num / core::fmt): parse-then-print on every text of "
+                                  "the domain, must-reject on long / malformed texts, print-then-parse on canonical values")
+
+    @property
+    def judge(s):
+        from . import ptext
+        return ptext.judge_text
+
+    def tasks(s, tier):
+        from . import ptext as PT
+        kall = 3 if tier == 'quick' else 5
+        names = list(PT.shapes_all(kall)) + list(PT.shapes_edge(kall + 1, 10))
+        ts = []
+        step = 12 if tier == 'quick' else 40
+        for i in range(0, len(names), step):
+            ts.append(Task("parse-print names, shapes %d..%d" % (i, min(len(names), i + step) - 1), 'seir.ptext:ob_label_parse', shapes=names[i:i + step]))
+        nd = 4 if tier == 'quick' else 5
+        for sh in PT.shapes_numeric(nd):
+            ts.append(Task("parse-print index, shape %s" % (''.join(map(str, sh))), 'seir.ptext:ob_label_parse', shapes=[sh], numeric=True,
+                           _weight=20 if len(sh) > 4 else 1))
+        for t in (5, 6, 7):
+            ts.append(Task("parse index, malformed tails of %d" % t, 'seir.ptext:ob_label_parse', shapes=[(2,) + (1,) * t], numeric=True,
+                           only_malformed=True, _weight=30))
+        for t in (9, 12, 20):
+            for hole in (1, t // 2, t):
+                ts.append(Task("parse index, tail of %d digits with one arbitrary non-digit at %d" % (t, hole), 'seir.ptext:ob_label_parse',
+                               shapes=[(2,) + (1,) * t], numeric=True, only_malformed=True,
+                               fixed={str(i): 0x31 for i in range(1, t + 1) if i != hole}, _weight=3))
+        for t in range(nd + 1, 9):
+            for d in (0x31, 0x39):
+                ts.append(Task("parse-print index, %d digits, all but the last three fixed to '%s'" % (t, chr(d)), 'seir.ptext:ob_label_parse',
+                               shapes=[(2,) + (1,) * t], numeric=True, fixed={str(i): d for i in range(1, t - 2)}, _weight=5))
+        ts.append(Task("print-parse Greek", 'seir.ptext:ob_label_print', kind='greek', shapes=[(1,), (2,), (3,), (4,)]))
+        strs = list(PT.shapes_all(kall, 2)) + list(PT.shapes_edge(kall + 1, 8))
+        for i in range(0, len(strs), step):
+            ts.append(Task("print-parse Str, shapes %d..%d" % (i, min(len(strs), i + step) - 1), 'seir.ptext:ob_label_print', kind='str', shapes=strs[i:i + step]))
+        ts.append(Task("print-parse Alpha n < 2^16", 'seir.ptext:ob_label_print', kind='alpha', bits=16, _weight=40))
+        highs = sorted({(10 ** k - 512) >> 10 for k in range(4, 20)} | {(1 << 54) - 1, (10 ** 19) >> 10})
+        for h in highs:
+            ts.append(Task("print-parse Alpha window at %d" % (h << 10), 'seir.ptext:ob_label_print', kind='alpha', bits=10, high=h, _weight=3))
+        return ts
+
+    def run(s, prop, tier, seed, args, t0):
+        from . import ptext as PT
+        b = H.build_drv('dev-like')
+        tb = PT.build_bs()
+        tasks = s.tasks(tier)
+        if args.only:
+            tasks = [t for t in tasks if args.only in t.name]
+        results = H.run_tasks(tb['ll'], tasks, jobs=args.jobs, seed=seed)
+        b2 = dict(b, ll=tb['ll'], seconds=b['seconds'] + tb['seconds'], profile=tb['profile'])
+        return finish(prop, tier, seed, t0, b2, results, s)
+
+    def replay(s, path):
+        from . import ptext as PT
+        v = json.load(open(path))
+        b = H.build_drv('dev-like')
+        lines, crashed, stderr = H.native_replay(b['replay'], v['job'])
+        out, info = PT.judge_text(v['job'], lines, crashed, stderr)
+        print(json.dumps({'reproduces': bool(out), 'what': out}, indent=1))
+        return 1 if out else 0
+
 def mem_tasks(tier):
     cfgs = QUICK_CFG if tier == 'quick' else THOROUGH_CFG
     ts = []
@@ -198,6 +280,7 @@ def mem_tasks(tier):
 
 
 PROPS = {
+    'C17': TextSpec(),
     'C15': KaniSpec('c15_', "Hex observers, indices and the six range kinds agree with the byte slice (ok / panic harness pairs); equality across representations; i64/f64 conversions"),
     'C16': KaniSpec('c16_', "concat is byte-string concatenation for all four representation combinations, split by the region of the recorded finding", known_harness='c16_concat_inside_known_region'),
     'C01': GraphSpec(['add', 'put', 'data', 'bind', 'next_id', 'readers'],
@@ -214,8 +297,11 @@ PROPS = {
     'C10': GraphSpec(['clone'], "clone() from every Inv state: abstract equality of the copy, allocations of its own, original byte-identical"),
     'C07': GraphSpec(['add', 'put', 'data', 'bind', 'next_id', 'readers', 'clone'],
                      "every path of every operation ends in return or panic (the executor's memory model checks bounds, liveness, dealloc layout, initialisation); within limits: return; id >= capacity, (N+1)-th label, 17th member: panic", extra_tasks=mem_tasks),
+    'C19': GraphSpec(['add', 'put', 'data', 'bind', 'next_id', 'readers', 'clone'],
+                     "every operation refines one functional, configuration-independent step relation (results, kids order, next_id = first absent id at or above the position, post-state up to slot names), proved per configuration; no comparison depends on allocation addresses",
+                     extra_tasks=lambda tier: [Task('lifecycle N=%d cap=%d' % (N, cap), 'seir.pgraph:ob_mem_lifecycle', N=N, cap=cap) for (N, cap) in [(1, 2), (16, 4), (16, 8)]]),
     'C04': GraphSpec(['add'], "add(v) from every Inv state: blank vertex on an absent id (arbitrary stale contents), nothing changes on a present id"),
-    'C05': GraphSpec(['next_id'], "next_id() from every Inv state with an absent id at or above the allocator position: result below "
+    'C05': GraphSpec(['next_id', 'add', 'put', 'data', 'bind', 'clone'], "next_id() from every Inv state with an absent id at or above the allocator position: result below "
                      "capacity, absent, at or above the position (so never issued before), position moves past it; nothing else changes; "
                      "add/bind/put/data leave the position (frame clauses of C01-C03 obligations)"),
     'C06': GraphSpec(['data', 'bind', 'add', 'put', 'next_id'],
